@@ -140,8 +140,8 @@ def _hermite_der(s: float, y0: float, y1: float, dy0: float, dy1: float, dt_seg:
     All units are in nondimensional units.
     """
     # Analytical derivative of the cubic Hermite polynomial
-    dh00 = 6.0 * s * (s - 1.0) + (1.0 - s) ** 2 * 2.0 - 2.0 * (1.0 - s) * (1.0 + 2.0 * s)
+    dh00 = 6.0 * s * (s - 1.0)
     dh10 = (1.0 - s) ** 2 + s * (2.0 * (s - 1.0))
-    dh01 = 6.0 * s * (1.0 - s) - 2.0 * s * (3.0 - 2.0 * s)
+    dh01 = 6.0 * s * (1.0 - s)
     dh11 = 2.0 * s * (s - 1.0) + s ** 2
     return dh00 * y0 + dh10 * dy0 * dt_seg + dh01 * y1 + dh11 * dy1 * dt_seg
